@@ -1,11 +1,13 @@
 //! Engine `timer` (C18): every interleaving of the timer protocol of crux_time, driven against the real code.
-//!   timer gen <seed> <n> | timer gen-exh <maxlen> [cmd|core|legacy] [A|T|alt] | timer run
+//!   timer gen <seed> <n> | timer gen-mixed <seed> <n> | timer gen-exh <maxlen> [cmd|core|legacy] [A|T|alt] | timer run
 //!
 //! case : `<host> <kinds> <action>*`
 //!   host   `cmd`    command API, every timer's Command driven directly (effects()/events()/is_done())
 //!          `core`   command API, the Commands are returned from an App's `update` and hosted by a Core
 //!          `legacy` capability API (`caps.time.notify_after/notify_at/clear`) hosted by a Core
-//!   kinds  one letter per timer, `A` = notify_after, `T` = notify_at (timer i is created i-th)
+//!          `mixed`  ONE app in ONE Core starting timers through both APIs: timer i is a command-API timer (kind letter
+//!                   `A`/`T`) or a legacy capability timer (kind letter `a`/`t`); it gets its id when its start action runs
+//!   kinds  one letter per timer, `A` = notify_after, `T` = notify_at (cmd/core: timer i is created i-th)
 //!   action `<letter><timer index>`:
 //!     p poll (cmd: effects()+events()+is_done() of timer i's command; core: first time = return the command from
 //!       update, later = a no-op event; legacy: a no-op event)
@@ -15,6 +17,8 @@
 //!     a resolve the Clear request with Cleared{id}    b … with a foreign id    y … with a response of another kind
 //!     x drop the Clear request unresolved
 //!     s (legacy) start the timer     S (legacy) start the timer and clear it in the same update
+//!     mixed, command-API timer: s = create it in `update` and return its command; S = create it, `handle.clear()`, return
+//!       the command; s/S on a timer that exists = a no-op event; then as in `core`. mixed, legacy timer: as in `legacy`.
 //!   after the last action every timer is polled once more (cmd: `p0 … pn-1`; core/legacy: one no-op event).
 //! out  : `ids:<ok|dup|unordered> <record>*`, one record per action (+ the final polls), a record is a comma separated list
 //!     `<res>[,+<after|at|clear>:<timer>]*[,!<completed|cleared|elapsed|arrived>:<tag>[:<timer>]]*[,done|,live]`
@@ -43,6 +47,8 @@ pub enum Event {
     DropHandle(usize),
     Tick,
     Outcome(usize, TimerOutcome),
+    // command API, created on demand (mixed host)
+    MStart(usize, bool, bool),
     // legacy API
     LStart(usize, bool, bool),
     LClear(usize),
@@ -121,6 +127,22 @@ impl crux_core::App for App {
                 Command::done()
             }
             Event::Launch(i) => model.cmds[i].take().expect("launched twice"),
+            Event::MStart(i, at, clear) => {
+                while model.raws.len() <= i {
+                    model.raws.push(None);
+                }
+                while model.handles.len() <= i {
+                    model.handles.push(None);
+                }
+                let (cmd, handle) = make_timer(i, at);
+                model.raws[i] = Some(raw_of_debug(&format!("{handle:?}")));
+                if clear {
+                    handle.clear();
+                } else {
+                    model.handles[i] = Some(handle);
+                }
+                cmd
+            }
             Event::Clear(i) => {
                 model.handles[i].take().expect("no handle").clear();
                 Command::done()
@@ -175,11 +197,13 @@ enum Host {
     Cmd,
     Core,
     Legacy,
+    Mixed,
 }
 
 struct Case {
     host: Host,
     kinds: Vec<bool>, // true = notify_at
+    leg: Vec<bool>,   // true = legacy capability timer
     actions: Vec<(char, usize)>,
 }
 
@@ -189,17 +213,21 @@ fn parse_case(line: &str) -> Option<Case> {
         "cmd" => Host::Cmd,
         "core" => Host::Core,
         "legacy" => Host::Legacy,
+        "mixed" => Host::Mixed,
         _ => return None,
     };
-    let kinds: Vec<bool> = it
-        .next()?
+    let kind_str = it.next()?;
+    let kinds: Vec<bool> = kind_str
         .chars()
         .map(|c| match c {
             'A' => Some(false),
             'T' => Some(true),
+            'a' if host == Host::Mixed => Some(false),
+            't' if host == Host::Mixed => Some(true),
             _ => None,
         })
         .collect::<Option<_>>()?;
+    let leg: Vec<bool> = kind_str.chars().map(|c| host == Host::Legacy || c.is_ascii_lowercase()).collect();
     if kinds.is_empty() || kinds.len() > 9 {
         return None;
     }
@@ -213,6 +241,8 @@ fn parse_case(line: &str) -> Option<Case> {
         }
         let allowed = match host {
             Host::Legacy => "pfwkrcasS",
+            Host::Mixed if leg[i] => "pfwkrcasS",
+            Host::Mixed => "pfwkrchabyxsS",
             _ => "pfwkrchabyx",
         };
         if !allowed.contains(a) {
@@ -220,7 +250,7 @@ fn parse_case(line: &str) -> Option<Case> {
         }
         actions.push((a, i));
     }
-    Some(Case { host, kinds, actions })
+    Some(Case { host, kinds, leg, actions })
 }
 
 fn idx(raws: &[Option<usize>], id: usize) -> String {
@@ -400,19 +430,20 @@ fn run_cmd(case: &Case) -> String {
 
 fn run_core(case: &Case) -> String {
     let n = case.kinds.len();
-    let legacy = case.host == Host::Legacy;
+    let premade = case.host == Host::Core; // command timers all created up front, launched by their first poll
     let core: Core<App> = Core::new();
     let mut raws: Vec<Option<usize>> = vec![None; n];
     let mut created: Vec<Option<usize>> = vec![]; // raw ids in creation order
+    let mut counted = vec![premade; n]; // timer j's id is in `created`
     let mut seen_log = 0usize;
     let mut launched = vec![false; n];
-    let mut has_handle = vec![!legacy; n];
+    let mut has_handle = vec![premade; n];
     let mut held: Vec<Held> = (0..n).map(|_| Held::default()).collect();
     // a task panicked inside a core call: the core is not used any more (QueuingExecutor::run_all can spin forever
     // when a stale waker wakes the slot the panicked task left empty); the rest of the case prints `dead`
     let mut core_dead = false;
     let mut out = vec![];
-    if !legacy {
+    if premade {
         let effects = core.process_event(Event::Init(case.kinds.clone()));
         assert!(effects.is_empty());
         raws = core.view().raws;
@@ -434,15 +465,21 @@ fn run_core(case: &Case) -> String {
             Drop(bool),
         }
         let started = raws[i].is_some();
+        let legacy = case.leg[i];
         let what = match a {
             't' => Do::Nothing,
-            'p' if !legacy && !launched[i] => {
+            'p' if premade && !launched[i] => {
                 launched[i] = true;
                 Do::Ev(Event::Launch(i))
             }
             'p' => Do::Nothing,
-            's' | 'S' if started => Do::Na,
-            's' | 'S' => Do::Ev(Event::LStart(i, case.kinds[i], a == 'S')),
+            's' | 'S' if started && legacy => Do::Na,
+            's' | 'S' if started => Do::Nothing,
+            's' | 'S' if legacy => Do::Ev(Event::LStart(i, case.kinds[i], a == 'S')),
+            's' | 'S' => {
+                has_handle[i] = a == 's';
+                Do::Ev(Event::MStart(i, case.kinds[i], a == 'S'))
+            }
             'c' if legacy && started => Do::Ev(Event::LClear(i)),
             'c' if legacy => Do::Na,
             'c' | 'h' if !has_handle[i] => Do::Na,
@@ -489,8 +526,9 @@ fn run_core(case: &Case) -> String {
         let view = core.view();
         raws = view.raws;
         raws.resize(n, None);
-        for r in &raws {
-            if r.is_some() && !created.contains(r) {
+        for (j, r) in raws.iter().enumerate() {
+            if r.is_some() && !counted[j] {
+                counted[j] = true;
                 created.push(*r);
             }
         }
@@ -668,10 +706,84 @@ fn gen(seed: u64, n: usize) {
     }
 }
 
+/// ONE app starting timers through both APIs in an interleaved order: 1..6 timers, random API and constructor per timer,
+/// starts spread over the sequence with polls / fires / clears / drops of the timers that already exist in between
+fn gen_mixed(seed: u64, n: usize) {
+    let mut r = Rng::new(seed ^ 0x6d69_7865_64);
+    let out = std::io::stdout();
+    let mut out = std::io::BufWriter::new(out.lock());
+    for _ in 0..n {
+        let nt = 1 + r.below(6) as usize;
+        let kinds: Vec<char> = (0..nt).map(|_| *r.pick(&['A', 'T', 'a', 't'])).collect();
+        let len = nt + r.below(16) as usize;
+        // per timer: None = not started; Some(prefix) = the syntactic applicability prefix of a command timer / marker for legacy
+        let mut prefixes: Vec<Option<Vec<char>>> = vec![None; nt];
+        let mut acts: Vec<String> = vec![];
+        for _ in 0..len {
+            let i = r.below(nt as u64) as usize;
+            let legacy = kinds[i].is_ascii_lowercase();
+            let a = match &mut prefixes[i] {
+                None => {
+                    let a = *r.pick(&['s', 's', 's', 's', 's', 'S', 'c', 'f', 'p']);
+                    if a == 's' {
+                        prefixes[i] = Some(if legacy { vec![] } else { vec!['p'] });
+                    } else if a == 'S' {
+                        prefixes[i] = Some(if legacy { vec!['f'] } else { vec!['c', 'p'] });
+                    }
+                    a
+                }
+                Some(pre) if legacy => {
+                    // A legacy timer that is cleared while pending reports Cleared whenever its task is next polled. In
+                    // this host that can be a spurious poll: a finished command's stale waker (woken when the shell later
+                    // resolves / drops one of its requests) wakes whatever task reuses its executor slot. The model has
+                    // no executor slots, so the generator keeps that window closed: a clear of a pending legacy timer is
+                    // answered in the very next step, and a timer whose request was dropped unanswered is not cleared.
+                    // (Every interleaving of legacy clears is covered in the `legacy` host, where no stale wakers exist.)
+                    let fired = pre.iter().any(|c| "fwk".contains(*c));
+                    let dropped = pre.contains(&'r');
+                    let mut a = *r.pick(&['c', 'c', 'f', 'f', 'f', 'w', 'k', 'r', 'a', 'p', 's']);
+                    if a == 'c' && !fired && dropped {
+                        a = 'p';
+                    }
+                    pre.push(a);
+                    if a == 'c' && !fired {
+                        acts.push(format!("c{i}"));
+                        a = *r.pick(&['f', 'f', 'w', 'k']);
+                        pre.push(a);
+                    }
+                    a
+                }
+                Some(pre) => {
+                    let a = if r.chance(9, 10) {
+                        let a = *r.pick(&next_actions(pre));
+                        if "wkby".contains(a) && r.chance(3, 4) {
+                            'p'
+                        } else {
+                            a
+                        }
+                    } else {
+                        *r.pick(&['p', 'f', 'r', 'c', 'h', 'a', 'x', 's'])
+                    };
+                    pre.push(a);
+                    // in this host every step ends with the commands run: a clear is followed by a poll
+                    if a != 'p' {
+                        pre.push('p');
+                    }
+                    a
+                }
+            };
+            acts.push(format!("{a}{i}"));
+        }
+        let ks: String = kinds.iter().collect();
+        writeln!(out, "mixed {ks} {}", acts.join(" ")).unwrap();
+    }
+}
+
 fn main() {
     let args: Vec<String> = std::env::args().collect();
     match args.get(1).map(String::as_str) {
         Some("gen") => gen(args[2].parse().unwrap(), args[3].parse().unwrap()),
+        Some("gen-mixed") => gen_mixed(args[2].parse().unwrap(), args[3].parse().unwrap()),
         Some("gen-exh") => {
             let host = args.get(3).map(String::as_str).unwrap_or("cmd");
             if host == "legacy" {
